@@ -81,12 +81,14 @@ Definition closed1_d (dfl : list (str * sval)) (o : jobj) : bool :=
   | Some st => closed TBL st
   | None => false
   end.
-Definition all_closed : bool :=
-  forallb (fun dc =>
-    forallb (fun kc =>
-      let dfl := eff (defaults TBL dc (packed_class (mk_obj kc (false, O, O) []))) in
-      forallb (fun sh => forallb (fun ov => closed1_d dfl (mk_obj kc sh ov)) override_menu) (shapes_of (fst kc)))
-      (kinds_classes dc)) diagram_classes.
+Definition dfl_of (dc : str) (kc : kind * str) : list (str * sval) :=
+  eff (defaults TBL dc (packed_class (mk_obj kc (false, O, O) []))).
+Definition closed_sh (dfl : list (str * sval)) (kc : kind * str) (sh : bool * nat * nat) : bool :=
+  forallb (fun ov => closed1_d dfl (mk_obj kc sh ov)) override_menu.
+Definition closed_kc (dc : str) (kc : kind * str) : bool :=
+  let dfl := dfl_of dc kc in forallb (closed_sh dfl kc) (shapes_of (fst kc)).
+Definition closed_dc (dc : str) : bool := forallb (closed_kc dc) (kinds_classes dc).
+Definition all_closed : bool := forallb closed_dc diagram_classes.
 (* the combinations that are not closed, for the report when [all_closed] is false *)
 Definition unclosed : list (str * (kind * str)) :=
   flat_map (fun dc =>
